@@ -9,6 +9,8 @@ PROP = {
     "level": "model_checking",
     "clauses": [
         "IdentityRegistration::is_authorized(now) <=> expires_at > now (strict)",
+        "IdentityRegistryState::is_authorized(now, id) from an arbitrary wf registry state with <= 1 entry: Some <=> a session for "
+        "id exists /\\ it expires strictly after now (c09_is_authorized_n0/_n1)",
         "[thorough, not discharged - see not_decided] inductive steps from an arbitrary wf state "
         "(associations injective /\\ sessions.keys == associations.values), |state| = N <= 3: "
         "add_identity (wf', key maps to id with the new expiry, superseded identity has neither session nor association, "
@@ -17,10 +19,10 @@ PROP = {
         "is_authorized (Some <=> session exists /\\ expires_at > now)",
     ],
     "not_decided": [
-        "all BTreeMap-based step harnesses (c09_add_identity_n*, c09_clean_expired_n*, c09_is_authorized_n*): written and "
+        "the BTreeMap-based step harnesses c09_add_identity_n*, c09_clean_expired_n* and c09_is_authorized_n2/_n3: written and "
         "compiled, but not discharged: `[u8;32]: Ord` is memcmp (unwind 33) and B-tree node lengths are not "
-        "constant-propagated by CBMC, so every key search unrolls 33 x 33; even N=0/N=1 exceeded 1200 s (machine load ~47). "
-        "Registered in tier thorough",
+        "constant-propagated by CBMC, so every key search unrolls 33 x 33; add_identity N=0/N=1 and clean_expired N=1 exceeded 3600 s on a calm machine. "
+        "Tier experimental",
         "per-packet gate in SnapTunServer::handle_{incoming,outgoing}_packet_with_session (x25519/ChaCha20 state, rate limiter, "
         "Instant::now) and attribution of payloads to sessions",
         "IdentityRegistry::register computes now + lifetime: Instant overflow panics - precondition, not checked",
@@ -46,9 +48,13 @@ PROP = {
                 H("c09_registration_strict", "B", bound="instants in [base, base+2^32 s), all nanoseconds",
                   what="registration authorised iff expiry strictly after now (loop-free)", timeout=600),
             ] + [
-                H(f"c09_{op}_n{n}", "B", tier="experimental", bound=_STEP_BOUND.replace("N", str(n), 1),
-                  what=f"{op} inductive step from an arbitrary wf state with {n} entries - NOT discharged within 1200 s",
-                  timeout=3600)
+                H(f"c09_{op}_n{n}", "B",
+                  tier=("quick" if (op == "is_authorized" and n <= 1) else "experimental"),
+                  bound=_STEP_BOUND.replace("N", str(n), 1),
+                  what=(f"{op} from an arbitrary wf state with {n} entries: Some <=> session exists and expires strictly after now"
+                        if (op == "is_authorized" and n <= 1) else
+                        f"{op} inductive step from an arbitrary wf state with {n} entries - NOT discharged within 3600 s"),
+                  timeout=(1500 if op == "is_authorized" else 3600))
                 for op in ("add_identity", "clean_expired", "is_authorized") for n in (0, 1, 2, 3)
             ],
         },
